@@ -643,6 +643,8 @@ class SE3(SO3):
 
         elif y is not None and z is not None:
             # SE3(x, y, z)
+            if isinstance(x, np.ndarray) and x.ndim > 0:
+                raise ValueError('bad argument to constructor, x must be a scalar')
             self.data = [base.transl(x, y, z)]
 
         else:
@@ -1195,8 +1197,10 @@ class SE3(SO3):
         elif base.ismatrix(S, (4, 4)):
             return cls(base.trexp(S, check=check), check=False)
         else:
+            if not all(base.isvector(s, 6) or base.ismatrix(s, (4, 4)) for s in S):
+                raise ValueError('argument must be se(3) elements: 6-vectors or 4x4 matrices')
             return cls([base.trexp(s) for s in S], check=False)
-            
+
 
     @classmethod
     def Delta(cls, d):
